@@ -33,8 +33,9 @@ def run(ctx):
         r.eq('max-missed', c.get('bits'), '2', None, why='silence is fatal after 2 intervals, not before')
         rows = P.table(ctx, 'io_loop::Inner::start_heartbeats', ['self', 'interval'])
         site = ctx.site('io_loop::Inner::start_heartbeats')
-        on = [x for x in rows if x.conds == [('(interval > 0)', True)]]
-        off = [x for x in rows if x.conds == [('(interval > 0)', False)]]
+        # `interval > 0` and `interval != 0` are the same test of a u16
+        on = [x for x in rows if x.conds in ([('(0 < interval)', True)], [('(interval == 0)', False)])]
+        off = [x for x in rows if x.conds in ([('(0 < interval)', False)], [('(interval == 0)', True)])]
         r.check('enabled', len(on) == 1 and on[0].effects[-1] == HT + 'HeartbeatTimers::start(self.heartbeats, std::time::Duration::from_secs(interval))', site, built=[x.row() for x in on],
                 why='the announced interval is in seconds')
         r.check('disabled-when-0', len(off) == 1 and not off[0].effects, site, built=[x.row() for x in off], why='h = 0: no timers, no heartbeats, silence never fatal')
@@ -56,7 +57,7 @@ def run(ctx):
     with ctx.rule('R17.2', 'activity: rx stamped after a read of n > 0 bytes, tx stamped on every successful write; each stamps its own timer', floor=6) as r:
         rows = P.table(ctx, 'io_loop::Inner::read_from_stream', ['self', 'stream', 'frame_buffer', 'handler'])
         site = ctx.site('io_loop::Inner::read_from_stream')
-        RD = '(frame_buffer::FrameBuffer::read_from(frame_buffer, stream, |$c0| value:handler(self, $c0))? > 0)'
+        RD = '(0 < frame_buffer::FrameBuffer::read_from(frame_buffer, stream, |$c0| value:handler(self, $c0))?)'
         pos = [x for x in rows if x.conds == [(RD, True)]]
         zero = [x for x in rows if x.conds == [(RD, False)]]
         r.check('rx:on-bytes', len(pos) == 1 and pos[0].effects[-1] == HT + 'HeartbeatTimers::record_rx_activity(self.heartbeats)', site, built=[x.row() for x in rows], why='any inbound traffic counts as liveness')
@@ -112,11 +113,12 @@ def run(ctx):
         rows = P.table(ctx, 'heartbeats::Heartbeat::fire', ['self', 'timer'])
         site = ctx.site('heartbeats::Heartbeat::fire')
         EL = 'std::time::Instant::elapsed(self.last)'
-        exp = [x for x in rows if len(x.conds) == 1 and x.conds[0][1] is True]
-        run_ = [x for x in rows if len(x.conds) == 1 and x.conds[0][1] is False]
+        # canonical comparison: `interval <= elapsed + fudge` is ((elapsed + fudge) < interval) failing
+        exp = [x for x in rows if len(x.conds) == 1 and x.conds[0][1] is False]
+        run_ = [x for x in rows if len(x.conds) == 1 and x.conds[0][1] is True]
         if r.check('rows', len(rows) == 2 and len(exp) == 1 and len(run_) == 1, site, built=[x.cond_strs() for x in rows]):
             import re
-            m = re.match(r'^\(self\.interval <= \(%s \+ std::time::Duration::from_millis\((\d+)\)\)\)$' % re.escape(EL), exp[0].conds[0][0])
+            m = re.match(r'^\(\(%s \+ std::time::Duration::from_millis\((\d+)\)\) < self\.interval\)$' % re.escape(EL), exp[0].conds[0][0])
             r.check('comparison', bool(m) and int(m.group(1)) <= 50, site, built=exp[0].conds[0][0], expected='(self.interval <= (elapsed + Duration::from_millis(<small>)))')
             r.check('expired', exp[0].value_str() == 'heartbeats::HeartbeatState::Expired' and 'self.timeout = mio_extras::timer::Timer::set_timeout(timer, self.interval, self.val)' in exp[0].effects, site, built=exp[0].row())
             r.check('still-running', run_[0].value_str() == 'heartbeats::HeartbeatState::StillRunning' and 'self.timeout = mio_extras::timer::Timer::set_timeout(timer, (self.interval - %s), self.val)' % EL in run_[0].effects, site, built=run_[0].row(),
